@@ -155,6 +155,92 @@ Arguments o_c1 {tab} o.
 Arguments o_c2 {tab} o.
 
 (* ======================================================================== *)
+(* several objects: a copying subset returns a NEW object; the history may go on with
+   any of them.  In the code the copy is built by self.__class__(fname, log): its caches
+   start absent and it shares no mutable look-up state with its parent, so a step on one
+   object leaves every other object as it was.                                           *)
+
+Inductive xop (O : Type) := XOn (p : O) | XSwitch (k : nat).
+Arguments XOn {O} p.
+Arguments XSwitch {O} k.
+
+Definition xmap {O O'} (f : O -> O') (x : xop O) : xop O' :=
+  match x with XOn p => XOn (f p) | XSwitch k => XSwitch k end.
+
+Fixpoint replace_nth {A} (n : nat) (x : A) (l : list A) : list A :=
+  match l, n with
+  | [], _ => []
+  | _ :: r, O => x :: r
+  | y :: r, S m => y :: replace_nth m x r
+  end.
+
+Section Pool.
+  Variable tab : Type.
+  Variables ids1 ids2 : tab -> list Z.
+  Variables sub1 sub2 : list Z -> list Z -> tab -> res tab.
+
+  (* objs: object 0 is the one the history started with, every copying subset appends the
+     object it returned; f: the object the next operation is applied to *)
+  Definition pool_m_step (objs : list (obj tab)) (f : nat) (x : xop (op tab))
+    : res (list (obj tab) * nat * option tab) :=
+    match x with
+    | XSwitch k => match nth_error objs k with Some _ => Ok (objs, k, None) | None => Err E_Index end
+    | XOn p =>
+        match nth_error objs f with
+        | None => Err E_Index
+        | Some o =>
+            bind (m_step tab ids1 ids2 sub1 sub2 o p) (fun r => let '(o', out) := r in
+              Ok (replace_nth f o' objs
+                    ++ match out with Some t => [mko t None None] | None => [] end, f, out))
+        end
+    end.
+
+  Definition pool_a_step (ts : list tab) (f : nat) (x : xop (op tab))
+    : res (list tab * nat * option tab) :=
+    match x with
+    | XSwitch k => match nth_error ts k with Some _ => Ok (ts, k, None) | None => Err E_Index end
+    | XOn p =>
+        match nth_error ts f with
+        | None => Err E_Index
+        | Some t =>
+            bind (a_step tab ids1 ids2 sub1 sub2 t p) (fun r => let '(t', out) := r in
+              Ok (replace_nth f t' ts ++ match out with Some c => [c] | None => [] end, f, out))
+        end
+    end.
+
+  (* after every step: the contents of the object now in focus, and the step's result *)
+  Fixpoint pool_m_run (objs : list (obj tab)) (f : nat) (ops : list (xop (op tab)))
+    : list (res (tab * option tab)) :=
+    match ops with
+    | [] => []
+    | x :: r =>
+        match pool_m_step objs f x with
+        | Ok (objs', f', out) =>
+            match nth_error objs' f' with
+            | Some o => Ok (o_tab o, out) :: pool_m_run objs' f' r
+            | None => [Err E_Index]
+            end
+        | Err k => [Err k]
+        end
+    end.
+
+  Fixpoint pool_a_run (ts : list tab) (f : nat) (ops : list (xop (op tab)))
+    : list (res (tab * option tab)) :=
+    match ops with
+    | [] => []
+    | x :: r =>
+        match pool_a_step ts f x with
+        | Ok (ts', f', out) =>
+            match nth_error ts' f' with
+            | Some t => Ok (t, out) :: pool_a_run ts' f' r
+            | None => [Err E_Index]
+            end
+        | Err k => [Err k]
+        end
+    end.
+End Pool.
+
+(* ======================================================================== *)
 (* Genotypes / GenotypesVCF / GenotypesPLINK / GenotypesAncestry             *)
 
 Definition g_ids1 (t : gtab) : list Z := g_samples t.
@@ -232,6 +318,11 @@ Section Geno.
 
   Definition gm_run (ops : list gop) := m_run gtab g_ids1 g_ids2 g_sub1 g_sub2 g_init (map g_interp ops).
   Definition ga_run (ops : list gop) := a_run gtab g_ids1 g_ids2 g_sub1 g_sub2 g_empty (map g_interp ops).
+  (* histories over the object and the copies its subsets return *)
+  Definition gm_prun (ops : list (xop gop)) :=
+    pool_m_run gtab g_ids1 g_ids2 g_sub1 g_sub2 [g_init] 0 (map (xmap g_interp) ops).
+  Definition ga_prun (ops : list (xop gop)) :=
+    pool_a_run gtab g_ids1 g_ids2 g_sub1 g_sub2 [g_empty] 0 (map (xmap g_interp) ops).
 End Geno.
 
 Arguments GRead {T} ss vs.
@@ -310,6 +401,10 @@ Section Pheno.
   Definition p_init : obj ptab := mko p_empty None None.
   Definition pm_run (ops : list pop) := m_run ptab p_ids1 p_ids2 p_sub1 p_sub2 p_init (map p_interp ops).
   Definition pa_run (ops : list pop) := a_run ptab p_ids1 p_ids2 p_sub1 p_sub2 p_empty (map p_interp ops).
+  Definition pm_prun (ops : list (xop pop)) :=
+    pool_m_run ptab p_ids1 p_ids2 p_sub1 p_sub2 [p_init] 0 (map (xmap p_interp) ops).
+  Definition pa_prun (ops : list (xop pop)) :=
+    pool_a_run ptab p_ids1 p_ids2 p_sub1 p_sub2 [p_empty] 0 (map (xmap p_interp) ops).
 End Pheno.
 
 (* ======================================================================== *)
